@@ -14,8 +14,14 @@ import (
 	"sync"
 	"time"
 
+	"net"
+
 	"github.com/Tnze/go-mc/bot"
+	"github.com/Tnze/go-mc/chat"
 	"github.com/Tnze/go-mc/data/packetid"
+	mcnet "github.com/Tnze/go-mc/net"
+	"github.com/Tnze/go-mc/server"
+	"github.com/google/uuid"
 	"verif/harness/vk"
 )
 
@@ -727,7 +733,7 @@ func jnRunAll(env *vk.Env, scs []jnScenario, label string) {
 }
 
 func runC19(env *vk.Env) {
-	env.Cov.Rule = "S: TLC checks Join.tla (ModeAgreement, Agreement, PlayFIFO, StatusOK; liveness JoinCompletes/PlayDelivered/RefusalSeen/StatusCompletes under weak fairness; three misplaced-SetThreshold variants must FAIL) and Dispatch.tla (constructive Expected vs declarative order/bundle/failure invariants over all registration orders; six defect variants must FAIL). A: TLC configurations (Join_Gen) and TLC-simulated dispatch vectors (Dispatch_Gen) plus seeded random scenarios are executed by a real bot.Client against a real server.Server over a buffered in-memory duplex and over TCP loopback, under -race. B: the tapped byte streams are cut into frames by an independent reader (mode inferred from the bytes); frames, AcceptPlayer arguments, join result, play packets sent/received, handler invocations, HandleGame result and PingAndList result are validated by Join_Trace (silent receives inferred by TLC) and Dispatch_Trace. Distinct/non-trivial = distinct scenario classes."
+	env.Cov.Rule = "S: TLC checks Join.tla (ModeAgreement, Agreement, PlayFIFO, StatusOK; liveness JoinCompletes/PlayDelivered/RefusalSeen/StatusCompletes under weak fairness; three misplaced-SetThreshold variants must FAIL) and Dispatch.tla (constructive Expected vs declarative order/bundle/failure invariants over all registration orders; six defect variants must FAIL). A: TLC configurations (Join_Gen) and TLC-simulated dispatch vectors (Dispatch_Gen) plus seeded random scenarios are executed by a real bot.Client against a real server.Server over a buffered in-memory duplex and over TCP loopback, under -race. B: the tapped byte streams are cut into frames by an independent reader (mode inferred from the bytes); frames, AcceptPlayer arguments, join result, play packets sent/received, handler invocations, HandleGame result and PingAndList result are validated by Join_Trace (silent receives inferred by TLC) and Dispatch_Trace; several status pings over the history of one server (players leaving and joining, with and without a change of the online count) are validated by Status_Trace. Distinct/non-trivial = distinct scenario classes."
 	env.Assume = []string{
 		"freedom from data races is observed by the Go race detector during the specification-driven runs, not decided by TLC",
 		"a hang counts only if the scenario hangs on two further fresh runs; otherwise it is an infrastructure result",
@@ -778,6 +784,7 @@ func runC19(env *vk.Env) {
 	}
 	env.Sample(rs[0])
 	jnRunAll(env, rs, "B random")
+	jnStatusLeg(env)
 	collectRaceReports(env)
 }
 
@@ -828,4 +835,184 @@ func replayC19(env *vk.Env, b []byte) {
 		}
 	}
 	collectRaceReports(env)
+}
+
+// ------------------------------------------------------------------ status pings over a history of one server
+
+// jnStatusFull projects a status JSON document to <<name, protocol, max, online, description text, sorted sample names>>.
+func jnStatusFull(js []byte) []any {
+	t := jnStatusTuple(js)
+	if len(t) == 0 {
+		return t
+	}
+	var doc struct {
+		Players struct {
+			Sample []struct {
+				Name string `json:"name"`
+			} `json:"sample"`
+		} `json:"players"`
+	}
+	json.Unmarshal(js, &doc)
+	names := []string{}
+	for _, s := range doc.Players.Sample {
+		names = append(names, s.Name)
+	}
+	sort.Strings(names)
+	ns := []any{}
+	for _, n := range names {
+		ns = append(ns, ints([]byte(n)))
+	}
+	return append(t, ns)
+}
+
+// jnStatusHistory: one server, several status pings over TCP loopback; between the pings players leave and join - with
+// and without a change of the online count. What the handler would answer is logged from its own exported methods.
+func jnStatusHistory(seed int64, id int) ([]map[string]any, error) {
+	rng := newRand(seed, fmt.Sprint("statushist", id))
+	pl := server.NewPlayerList(jnStatusMax)
+	info := server.NewPingInfo(jnStatusName, bot.ProtocolVersion, chat.Text(jnStatusMotd), nil)
+	srv := &server.Server{
+		ListPingHandler: jnStatus{pl, info},
+		LoginHandler:    &server.MojangLoginHandler{OnlineMode: false, Threshold: -1, LoginChecker: pl},
+		ConfigHandler:   jnFinishOnly{},
+	}
+	ln, err := net.Listen("tcp", "127.0.0.1:0")
+	if err != nil {
+		return nil, err
+	}
+	defer ln.Close()
+	go func() {
+		defer guard("c19b status history")
+		for {
+			c, err := ln.Accept()
+			if err != nil {
+				return
+			}
+			go func() {
+				defer guard("c19b status history")
+				srv.AcceptConn(mcnet.WrapConn(c))
+			}()
+		}
+	}()
+	var evs []map[string]any
+	evs = append(evs, map[string]any{"k": "reset", "scn": id})
+	clients := map[string]*plClient{}
+	next := 0
+	join := func() {
+		next++
+		name := fmt.Sprintf("p%d_%d", id, next)
+		c := &plClient{id: next}
+		clients[name] = c
+		pl.ClientJoin(c, server.PlayerSample{Name: name, ID: uuid.UUID{byte(next), byte(id)}})
+	}
+	leave := func() {
+		for name, c := range clients { // any one of them
+			pl.ClientLeft(c)
+			delete(clients, name)
+			return
+		}
+	}
+	logSet := func() {
+		names := []string{}
+		for _, s := range pl.PlayerSamples() {
+			names = append(names, s.Name)
+		}
+		sort.Strings(names)
+		ns := []any{}
+		for _, n := range names {
+			ns = append(ns, ints([]byte(n)))
+		}
+		evs = append(evs, map[string]any{"k": "set", "st": []any{ints([]byte(jnStatusName)), int(bot.ProtocolVersion), pl.MaxPlayer(), pl.OnlinePlayer(), ints([]byte(jnStatusMotd)), ns}})
+	}
+	ping := func() {
+		js, _, err := bot.PingAndListTimeout(ln.Addr().String(), 10*time.Second)
+		st := []any{}
+		if err == nil {
+			st = jnStatusFull(js)
+		}
+		evs = append(evs, map[string]any{"k": "ping", "err": err != nil, "st": st, "errtext": fmt.Sprint(err)})
+	}
+	for i := rng.Intn(4); i > 0; i-- {
+		join()
+	}
+	logSet()
+	ping()
+	for step := 2 + rng.Intn(4); step > 0; step-- {
+		switch k := rng.Intn(5); {
+		case k < 2 && len(clients) > 0: // one leaves, another joins: the count stays, the sample changes
+			leave()
+			join()
+		case k == 2 && len(clients) > 0:
+			leave()
+		case k == 3:
+			// nothing changes: the same answer again
+		default:
+			if len(clients) < 9 { // the sample lists up to 10 players: all of them while there are fewer
+				join()
+			}
+		}
+		logSet()
+		ping()
+	}
+	return evs, nil
+}
+
+func jnStatusLeg(env *vk.Env) {
+	tr := &vk.Trace{}
+	n := env.Pick(25, 250)
+	starts := []int{}
+	for i := 0; i < n; i++ {
+		evs, err := jnStatusHistory(env.Seed, i)
+		if err != nil {
+			env.Infra("status history: %v", err)
+			return
+		}
+		starts = append(starts, tr.N+1)
+		for _, e := range evs {
+			tr.Add(e)
+		}
+	}
+	v, err := env.ValidateTrace(vk.TLCRun{Name: "B status pings over a server's history", Module: "Status_Trace", Cfg: "Status_Trace.cfg", Workers: 1, Timeout: 10 * time.Minute}, "trace.ndjson", tr.Bytes())
+	if err != nil {
+		env.Infra("status histories: %v", err)
+		return
+	}
+	if v.Accepted {
+		env.AddTraces(int64(n))
+		env.AddEval(int64(tr.N))
+		env.Distinct("status-history")
+		return
+	}
+	if v.HWM == 0 {
+		env.Infra("status histories: no verdict\n%s", v.Res.Output)
+		return
+	}
+	// the scenario of the first rejected line, run again alone: only a rejection that shows again is reported
+	scn := 0
+	for i, s := range starts {
+		if s <= v.HWM {
+			scn = i
+		}
+	}
+	evs, err := jnStatusHistory(env.Seed, scn)
+	if err != nil {
+		env.Infra("status history (re-run): %v", err)
+		return
+	}
+	tr2 := &vk.Trace{}
+	for _, e := range evs {
+		tr2.Add(e)
+	}
+	v2, err := env.ValidateTrace(vk.TLCRun{Name: "rejudge status history", Module: "Status_Trace", Cfg: "Status_Trace.cfg", Workers: 1, NoCount: true}, "trace.ndjson", tr2.Bytes())
+	if err != nil || (!v2.Accepted && v2.HWM == 0) {
+		env.Infra("status history %d: no verdict on the re-run: %v", scn, err)
+		return
+	}
+	if v2.Accepted {
+		env.Infra("status history %d: the rejection at line %d did not show again when the history was run alone", scn, v.HWM)
+		return
+	}
+	env.Report("a status ping does not return what the status handler answers at the time of the request (a later ping on one server)",
+		fmt.Sprintf("Status_Trace rejects line %d of history %d: %s (the handler's answer was: %s)", v2.HWM, scn, vkTrunc(mustJSON(evs[v2.HWM-1]), 500), vkTrunc(mustJSON(evs[v2.HWM-2]), 500)),
+		map[string]any{"kind": "rerun", "seed": env.Seed, "tier": env.Tier})
 }
